@@ -153,7 +153,16 @@ def rule_wire(R):
          "release entries are re-armed for replay on a new connection (PUBREL, not PUBLISH, is retransmitted)")
 
 
+def rule_final(R):
+    """a PUBCOMP (and a PUBREC) ends its stage of the exchange whatever its reason code: the entry is removed before the
+    code is examined -- a PUBCOMP carrying 0x92 after a lost PUBCOMP must not leave the PUBREL to be replayed for ever
+    (shared with C18)"""
+    from .c18 import clause_remove_then_report
+    clause_remove_then_report(R, "final", arms=("PubComp", "PubRec"))
+
+
 def run(R):
+    R.rule("final", rule_final)
     R.rule("rel", rule_rel)
     R.rule("comp", rule_comp)
     R.rule("order", rule_order)
